@@ -343,6 +343,56 @@ func c18TagOwnership(c *Ctx) {
 				}
 			}
 			return ""
+		case *ssa.Call:
+			// a helper of the repository that makes the map and returns it: a
+			// map of its own for every call, completed before it is handed out
+			// and kept by nothing in the helper
+			g := x.Common().StaticCallee()
+			if g == nil || !c.P.IsRepoFunc(g) || len(g.Blocks) == 0 || g.Signature.Results().Len() != 1 {
+				break
+			}
+			rets := ssau.ReturnsOf(g)
+			for _, ret := range rets {
+				mk, ok := ret.Results[0].(*ssa.MakeMap)
+				if !ok {
+					if ssau.IsNilConst(ret.Results[0]) {
+						continue
+					}
+					return "the helper " + g.Name() + " returns a tag map it did not make itself"
+				}
+				for _, ref := range *mk.Referrers() {
+					switch u := ref.(type) {
+					case *ssa.MapUpdate:
+						if u.Map != ssa.Value(mk) {
+							return "the helper " + g.Name() + " stores the tag map inside another map"
+						}
+					case *ssa.Return, *ssa.Lookup, *ssa.DebugRef:
+					case *ssa.Call:
+						if ssau.CallName(u) != "builtin.len" {
+							return "the helper " + g.Name() + " hands the tag map to " + shortName(ssau.CallName(u))
+						}
+					default:
+						return fmt.Sprintf("in the helper %s the tag map escapes (%T)", g.Name(), ref)
+					}
+				}
+			}
+			if len(rets) > 0 {
+				// and the result goes nowhere but into registrations
+				for _, ref := range *x.Referrers() {
+					if u, ok := ref.(*ssa.Call); ok {
+						if nm := ssau.CallName(u); !regOrCtor(nm) && nm != "builtin.len" {
+							return "the tag map is also handed to " + shortName(nm) + ", which may keep or modify it"
+						}
+						continue
+					}
+					switch ref.(type) {
+					case *ssa.Lookup, *ssa.DebugRef:
+					default:
+						return fmt.Sprintf("the tag map escapes (%T)", ref)
+					}
+				}
+				return ""
+			}
 		}
 		return "the tag map is neither nil nor a map literal of the registering function: " + v.Name() + " (" + fmt.Sprintf("%T", v) + ")"
 	}
